@@ -4,7 +4,7 @@
    (the repaired code) on every holder against the shared holder set. *)
 From Coq Require Import List Arith.
 Import ListNotations.
-From NV Require Import Place.Policer Place.Rounds Place.RoundsProofs Place.Repl Place.ReplProofs.
+From NV Require Import Place.Policer Place.Rounds Place.RoundsProofs Place.RoundsMultiProofs Place.Repl Place.ReplProofs.
 
 (* Stable placement list [nodes] (no repetitions), REP R, all nodes reachable and
    accepting, holders inside the container, at least one holder: after R+1 rounds
@@ -37,6 +37,61 @@ Proof. exact never_empty. Qed.
 Theorem C27_primary_never_drops : forall nodes R holds v,
   NoDup nodes -> In v (primaries nodes R) -> In v holds -> In v (node_step nodes R holds v).
 Proof. exact primary_never_drops. Qed.
+
+(* ---- several REP rules, overlapping placement vectors ---------------------------
+   [rules] = one (placement vector, copies number) per REP rule of the policy; the
+   per-node check walks them with ONE shared processPlacementContext
+   (localNodeInContainer, needLocalCopy, node cache), as processObject does.
+   Full statement wanted (as for one rule): "after finitely many rounds every primary
+   node of every rule holds the object, the holder set stops changing and no check
+   issues a task".  Proved here (hence _partial): the replicas are restored after
+   (sum of the copies numbers) rounds and stay restored for ever; a holder that is a
+   primary node of ANY rule never drops its copy; every holder's check strictly
+   decreases the number of (rule, primary) pairs missing the object; the holder set
+   never becomes empty.  NOT proved: that the holder set stops changing and
+   replication stops (only checked by the differential tie); the last part is in fact
+   false for the unchanged code in the strict form "no task": a node confirmed as a
+   holder for an earlier vector is skipped without being counted for a later vector,
+   so some nodes keep calling the replicator with an EMPTY candidate list. *)
+Theorem C27_multi_restores_partial : forall rules orders holds,
+  (forall r, In r rules -> rule_ok r) ->
+  (forall x, In x holds -> in_container rules x) -> (exists x, In x holds) ->
+  mcovering rules orders -> total_R rules <= length orders ->
+  restored rules (mrounds rules orders holds)
+  /\ (forall more, restored rules (mrounds rules more (mrounds rules orders holds))).
+Proof. exact multi_restores. Qed.
+
+Theorem C27_multi_primary_never_drops : forall rules holds v r,
+  (forall r, In r rules -> rule_ok r) -> In r rules ->
+  In v (primaries (fst r) (snd r)) -> In v holds -> In v (mnode_step rules holds v).
+Proof. exact multi_primary_never_drops. Qed.
+
+Theorem C27_multi_progress : forall rules holds v,
+  (forall r, In r rules -> rule_ok r) -> In v holds ->
+  0 < mmissing rules holds ->
+  mmissing rules (mnode_step rules holds v) < mmissing rules holds.
+Proof. exact multi_step_progress. Qed.
+
+Theorem C27_multi_never_empty : forall rules holds v,
+  (forall r, In r rules -> rule_ok r) ->
+  (forall x, In x holds -> in_container rules x) -> (exists x, In x holds) ->
+  exists x, In x (mnode_step rules holds v).
+Proof. exact multi_never_empty. Qed.
+
+(* the one-rule model is the one-element instance of the multi-rule model *)
+Theorem C27_multi_single : forall nodes R holds v,
+  mnode_step [(nodes, R)] holds v = node_step nodes R holds v
+  /\ mnode_tasks [(nodes, R)] holds v = node_tasks nodes R holds v.
+Proof. intros. split; [apply mstep_single|apply mtasks_single]. Qed.
+
+(* non-vacuity: REP 1 over [1;2;3] and REP 1 over [2;3;1] (node 2 is a backup node of
+   the first vector and the primary node of the second), one copy on node 3 *)
+Example C27_multi_example :
+  mrounds [([1; 2; 3], 1); ([2; 3; 1], 1)] [[1; 2; 3]; [3; 2; 1]] [3] = [1; 2]
+  /\ mmissing [([1; 2; 3], 1); ([2; 3; 1], 1)] [3] = 2
+  /\ restored [([1; 2; 3; 4], 2); ([3; 4; 5], 1)]
+        (mrounds [([1; 2; 3; 4], 2); ([3; 4; 5], 1)] [[1; 2; 3; 4; 5]; [5; 4; 3; 2; 1]; [2; 4; 1; 3; 5]] [5]).
+Proof. split; [reflexivity|split; [reflexivity|exact multi_restores_instance]]. Qed.
 
 (* the replicator never reports more successes than asked for, and only nodes
    that were sent the object and accepted it; one check issues at most one task *)
@@ -90,6 +145,10 @@ Print Assumptions C27_converges.
 Print Assumptions C27_progress.
 Print Assumptions C27_never_empty.
 Print Assumptions C27_primary_never_drops.
+Print Assumptions C27_multi_restores_partial.
+Print Assumptions C27_multi_primary_never_drops.
+Print Assumptions C27_multi_progress.
+Print Assumptions C27_multi_never_empty.
 Print Assumptions C27_replicator_bounded.
 Print Assumptions C27_replicator_bounded_any.
 Print Assumptions C27_node_replication_bounded.
